@@ -10,7 +10,9 @@
                  the map of a wildcard / parameter node that merely matches;
      fix-F-C13b  a second declaration of the same method and URL appends its
                  remedies / diagnoses instead of replacing the earlier ones;
-     fix-F-C13c, fix-F-C13d: see Lib/UrlTree.
+     fix-F-C13c, fix-F-C13d, fix-F-C13g: see Lib/UrlTree ([plookup_v false] /
+                 [endpoint_remedies_v false] = the selection through the Lookup
+                 of before fix-F-C13g, kept for the refutation).
 
    Reference semantics are kept: a node value is a pointer to a Go map, here
    an id into a store of maps; BuildEndpointPolicyTree mutates the map in
@@ -178,6 +180,12 @@ Fixpoint unshadowedb (ds : list decl) (K : key) (p : pattern) (us : list part)
   | _, _ => true
   end.
 
+(* no request part is spelled "{..}" (such a part is taken for a parameter
+   reference by Lookup: known finding F-C13i); the monitor's classifier
+   [hasBracePart] *)
+Definition no_braceb (us : list part) : bool :=
+  forallb (fun u => negb (is_brace (snd u))) us.
+
 (* ---------------- selection (plugin_dispatcher.go) ---------------- *)
 
 Definition plookup (pt : ptree) (url : str) : lres N :=
@@ -218,6 +226,23 @@ Definition should_diagnose (pt : ptree) (gdiag : list diagnosis) (m url : str)
   : bool :=
   existsb g_enabled gdiag ||
   negb (is_nil (endpoint_diagnoses pt m url)).
+
+(* ---------------- variant: Lookup before fix F-C13g ---------------- *)
+
+Definition plookup_v (ck : bool) (pt : ptree) (url : str) : lres N :=
+  lookup_v ck (pt_tree pt) url.
+
+Definition policy_for_v (ck : bool) (pt : ptree) (m : str) (url : str) : option policy :=
+  match l_val (plookup_v ck pt url) with
+  | Some id => mm_find m (st_get id (pt_store pt))
+  | None => None
+  end.
+
+Definition endpoint_remedies_v (ck : bool) (pt : ptree) (m url : str) : list remedy :=
+  match policy_for_v ck pt m url with
+  | Some pol => filter r_enabled (p_rem pol)
+  | None => []
+  end.
 
 (* ---------------- correspondence entry point ---------------- *)
 
